@@ -1,4 +1,5 @@
 import SpoxModel.Lemmas.Ctx
+import SpoxModel.Lemmas.CtxProg
 import SpoxModel.Generated.CtxIR
 import SpoxModel.Generated.CtxWrites
 import SpoxModel.Generated.ModuleState
@@ -106,6 +107,146 @@ theorem settings_restored_any_body (which : Fin 3) (arg : Nat) (body : World →
 /-- The shape on the pinned tree (no `try/finally`) does leak: the full statement is false of it. -/
 theorem pinned_counterexample :
     (runBlock ⟨fun _ => pinnedIR⟩ (.withB 0 7 [] true) ⟨fun _ => 1, []⟩).1.glob 0 = 7 := by decide
+
+/-! ## Round 10 — block *programs*: refinement of the IR semantics to an IR-free specification
+
+Bodies are arbitrary command lists (`Model/CtxProg.lean`): `with` blocks, calls of the public non-scoped setters
+at any position, snapshots, `raise` at any position, `try … except: pass` inside bodies. -/
+
+mutual
+/-- **Refinement.** For managers of an accepted shape, running any program *through the managers' IR* (CPython's
+    generator protocol on the extracted statements) is the same — final settings, every snapshot, outcome — as
+    the IR-free specification "override the setting, run the body, put the setting back whatever happened". -/
+theorem runCmd_refines_spec (M : Managers) (hM : M.Good) :
+    (c : Cmd) → (w : World) → runCmd M c w = specCmd c w
+  | .withC which arg body, w => by
+    have ih : runCmds M body = specCmds body := funext (runCmds_refines_spec M hM body)
+    simp only [runCmd, specCmd, exec_good_eq _ (hM which), ih]
+  | .set _ _, _ => rfl
+  | .snap, _ => rfl
+  | .raise, _ => rfl
+  | .tryC body, w => by simp only [runCmd, specCmd, runCmds_refines_spec M hM body w]
+theorem runCmds_refines_spec (M : Managers) (hM : M.Good) :
+    (cs : List Cmd) → (w : World) → runCmds M cs w = specCmds cs w
+  | [], _ => rfl
+  | c :: cs, w => by
+    simp only [runCmds, specCmds, runCmd_refines_spec M hM c w]
+    generalize specCmd c w = r
+    obtain ⟨w1, o⟩ := r
+    cases o
+    · exact runCmds_refines_spec M hM cs w1
+    · rfl
+end
+
+/-- The refinement for the managers as they are in /repo now. -/
+theorem programs_refine_spec (cs : List Cmd) (w : World) :
+    runCmds Generated.CtxIR.managers cs w = specCmds cs w :=
+  runCmds_refines_spec _ generated_good cs w
+
+/-- What a `with` block does, in one line (on the specification): its own setting is back, every other setting
+    is as the body left it, the outcome is the body's. The body is any program. -/
+theorem spec_with (which : Fin 3) (arg : Nat) (body : List Cmd) (w : World) (j : Fin 3) :
+    (specCmd (.withC which arg body) w).1.glob j =
+      if j = which then w.glob which
+      else (specCmds body (w.put (setG w.glob which arg))).1.glob j := by
+  simp only [specCmd, World.put, setG]
+
+mutual
+/-- **Frame / confinement.** A setting whose non-scoped setter the program never calls has, after the program,
+    its value from before — whatever else happens: blocks over it or over the others nested in any order, setters
+    of the *other* settings, exceptions raised anywhere, exceptions caught inside bodies. -/
+theorem specCmd_frame (j : Fin 3) :
+    (c : Cmd) → (w : World) → cmdSets j c = false → (specCmd c w).1.glob j = w.glob j
+  | .withC which arg body, w, h => by
+    rw [spec_with]
+    by_cases hj : j = which
+    · simp [hj]
+    · simp only [hj, if_false]
+      rw [specCmds_frame j body _ (by simpa [cmdSets] using h)]
+      simp [World.put, setG, hj]
+  | .set which v, w, h => by
+    have : ¬ j = which := fun e => by simp [cmdSets, e] at h
+    simp [specCmd, World.put, setG, this]
+  | .snap, _, _ => rfl
+  | .raise, _, _ => rfl
+  | .tryC body, w, h => by
+    simp only [specCmd]
+    exact specCmds_frame j body w (by simpa [cmdSets] using h)
+theorem specCmds_frame (j : Fin 3) :
+    (cs : List Cmd) → (w : World) → cmdsSets j cs = false → (specCmds cs w).1.glob j = w.glob j
+  | [], _, _ => rfl
+  | c :: cs, w, h => by
+    simp only [cmdsSets, Bool.or_eq_false_iff] at h
+    have h1 := specCmd_frame j c w h.1
+    simp only [specCmds]
+    generalize specCmd c w = r at h1
+    obtain ⟨w1, o⟩ := r
+    cases o
+    · simp only at h1 ⊢
+      rw [specCmds_frame j cs w1 h.2, h1]
+    · exact h1
+end
+
+/-- **C16 for programs, on the code's IR.** After any program run through the managers extracted from /repo, every
+    setting whose non-scoped setter was not called is exactly what it was before. -/
+theorem program_setting_restored (j : Fin 3) (cs : List Cmd) (w : World) (h : cmdsSets j cs = false) :
+    (runCmds Generated.CtxIR.managers cs w).1.glob j = w.glob j := by
+  rw [programs_refine_spec]; exact specCmds_frame j cs w h
+
+/-- A `with` block confines even the non-scoped setter of its own setting: whatever the body is (setter calls of
+    the block's own setting at any depth, raising or not), the setting is back on exit. On the code's IR. -/
+theorem program_with_confines (which : Fin 3) (arg : Nat) (body : List Cmd) (w : World) :
+    (runCmd Generated.CtxIR.managers (.withC which arg body) w).1.glob which = w.glob which := by
+  rw [runCmd_refines_spec _ generated_good, spec_with]; simp
+
+/-- **The managers are transparent to control flow.** On the code's IR: a `with` block raises exactly when its body
+    (run with the setting overridden) raises — it neither swallows nor invents an exception — and it adds nothing
+    to and removes nothing from what the body observes. -/
+theorem program_with_transparent (which : Fin 3) (arg : Nat) (body : List Cmd) (w : World) :
+    (runCmd Generated.CtxIR.managers (.withC which arg body) w).2 =
+      (runCmds Generated.CtxIR.managers body (w.put (setG w.glob which arg))).2 ∧
+    (runCmd Generated.CtxIR.managers (.withC which arg body) w).1.log =
+      (runCmds Generated.CtxIR.managers body (w.put (setG w.glob which arg))).1.log := by
+  rw [runCmd_refines_spec _ generated_good, runCmds_refines_spec _ generated_good]
+  exact ⟨rfl, rfl⟩
+
+/-- **In force at every depth.** Code under a stack `p` of enclosing blocks (outermost first) runs exactly in the
+    world where the settings are `enter w.glob p`; its snapshots and its outcome are what comes out. -/
+theorem spec_nest (inner : List Cmd) :
+    (p : List (Fin 3 × Nat)) → (w : World) →
+      (specCmds (nest p inner) w).1.log = (specCmds inner (w.put (enter w.glob p))).1.log ∧
+      (specCmds (nest p inner) w).2 = (specCmds inner (w.put (enter w.glob p))).2
+  | [], _ => ⟨rfl, rfl⟩
+  | (i, a) :: p, w => by
+    have ih := spec_nest inner p (w.put (setG w.glob i a))
+    simp only [nest, specCmds_single, specCmd, enter]
+    exact ih
+
+/-- … and `enter` is "the innermost enclosing block of a setting wins, the others are untouched". -/
+theorem enter_innermost (g : Globals) (p : List (Fin 3 × Nat)) (i : Fin 3) (a : Nat) (j : Fin 3) :
+    enter g (p ++ [(i, a)]) j = if j = i then a else enter g p j := by
+  rw [enter_append]; rfl
+
+/-- On the code's IR: a snapshot taken under any stack of enclosing blocks shows exactly `enter w.glob p`. -/
+theorem program_inside_in_force (p : List (Fin 3 × Nat)) (w : World) :
+    (runCmds Generated.CtxIR.managers (nest p [.snap]) w).1.log =
+      w.log ++ [[enter w.glob p 0, enter w.glob p 1, enter w.glob p 2]] := by
+  rw [programs_refine_spec, (spec_nest [.snap] p w).1]; rfl
+
+/-- Non-vacuity: a program with a setter of the block's own setting inside a nested, raising, partly caught body. -/
+example :
+    let r := runCmds Generated.CtxIR.managers
+      [.withC 0 3 [.snap, .set 0 2, .tryC [.withC 1 2 [.set 0 1, .snap, .raise]], .snap, .set 1 0, .raise]]
+      ⟨fun _ => 1, []⟩
+    r.1.log = [[3, 1, 1], [1, 2, 1], [1, 1, 1]] ∧ r.2 = .exn ∧ [r.1.glob 0, r.1.glob 1, r.1.glob 2] = [1, 0, 1] := by
+  decide
+
+example : cmdsSets 2 [.withC 0 3 [.set 0 2, .tryC [.withC 2 2 [.set 1 1, .raise]]]] = false := by decide
+
+/-- The pinned (pre-fix) shape does not refine the specification. -/
+theorem pinned_program_counterexample :
+    (runCmds ⟨fun _ => pinnedIR⟩ [.tryC [.withC 0 7 [.raise]]] ⟨fun _ => 1, []⟩).1.glob 0 = 7 ∧
+    (specCmds [.tryC [.withC 0 7 [.raise]]] ⟨fun _ => 1, []⟩).1.glob 0 = 1 := by decide
 
 /-! ## Nothing else writes the settings (tie G: inventory of write sites over all of `src/spox`) -/
 
